@@ -20,6 +20,56 @@ class AnalysisError(Exception):
     """The analysis cannot decide (never reported as a violation)."""
 
 
+class Frag:
+    """Result of matching required source fragments against a function's normalised text.  Truthy when all are
+    present.  When some are missing, `near()` tells whether each missing fragment has a NEAR MISS in the text (the
+    statement is still there but was edited -- a real deviation) or has no counterpart at all (the code was
+    restructured -- the idiom table cannot decide)."""
+
+    def __init__(self, text, *frags):
+        self.text = text
+        self.frags = list(frags)
+        self.missing = [f for f in frags if f not in text]
+
+    def __bool__(self):
+        return not self.missing
+
+    def __and__(self, other):
+        if isinstance(other, Frag):
+            r = Frag(self.text + "\n" + other.text)
+            r.frags = self.frags + other.frags
+            r.missing = self.missing + other.missing
+            return r
+        if not other:
+            r = Frag(self.text)
+            r.frags, r.missing = self.frags, self.missing + ["<side condition>"]
+            r.side = True
+            return r
+        return self
+
+    __rand__ = __and__
+
+    def near(self, threshold=0.72):
+        import difflib
+
+        lines = [l.strip() for l in self.text.split("\n") if l.strip()]
+        out = []
+        for f in self.missing:
+            if f == "<side condition>":
+                out.append((f, 1.0, ""))
+                continue
+            best, bl = 0.0, ""
+            fl = [x.strip() for x in f.split("\n") if x.strip()]
+            k = max(1, len(fl))
+            for i in range(len(lines)):
+                cand = " ".join(lines[i:i + k])
+                r = difflib.SequenceMatcher(None, " ".join(fl), cand).ratio()
+                if r > best:
+                    best, bl = r, cand
+            out.append((f, best, bl))
+        return out, all(r >= threshold for _f, r, _l in out)
+
+
 class Obligation:
     __slots__ = ("rule", "construct", "detail", "ok", "msg", "loc", "trivial", "extra")
 
@@ -69,14 +119,24 @@ class Report:
         """An obligation decided by matching today's statement shapes (a *pinned idiom*).  Pins are grouped (usually
         per analysed function).  An isolated deviation inside an otherwise intact group is a violation; if most pins
         of a group fail, the function was restructured and the verdict is 'cannot decide' (exit 2), never an alarm."""
+        if isinstance(ok, Frag) and not ok:
+            near, is_edit = ok.near()
+            if not is_edit:
+                gone = [f for f, r, _l in near if r < 0.72]
+                self.undecided(f"{rule} {construct} [{detail}]: the statement shape this rule is pinned to is gone ({gone[0][:60]!r} has no counterpart): restructured code, not decided")
+                return True
+            msg = msg + " -- closest statement now: " + "; ".join(l[:80] for _f, _r, l in near if l)
         self.pins.setdefault(group, []).append(len(self.obs))
-        return self.ob(rule, construct, ok, msg, loc, detail, trivial, extra)
+        return self.ob(rule, construct, bool(ok), msg, loc, detail, trivial, extra)
 
     def undecided(self, msg: str) -> None:
         """A rule (or part of one) could not be decided.  Never an alarm by itself: if the run finds no violation the
         check exits 2; violations found by other rules of the property are still reported (exit 1)."""
         if msg not in self.undecided_msgs:
             self.undecided_msgs.append(msg)
+
+    def has_undecided(self) -> bool:
+        return bool(self.undecided_msgs)
 
     def section(self, fn, *args, **kw):
         """Run one group of rules; an AnalysisError inside it is recorded as undecided instead of aborting the check."""
@@ -113,7 +173,7 @@ class Report:
             data = json.load(fh)
         return data.get("findings", []), data.get("fixed", [])
 
-    def finish(self, write: bool = True) -> int:
+    def finish(self, write: bool = True, raise_undecided: bool = True) -> int:
         for rule, n in self.min_instances.items():
             got = self.count(rule)
             if got < n:
@@ -230,7 +290,9 @@ class Report:
         if new:
             return 1
         if self.undecided_msgs:
-            raise AnalysisError("; ".join(self.undecided_msgs)[:600])
+            if raise_undecided:
+                raise AnalysisError("; ".join(self.undecided_msgs)[:600])
+            return 2
         return 0
 
     def _per_rule(self):
